@@ -88,7 +88,7 @@ class C09(conncheck.ConnCheck):
                     'strict': False, 'max_dev': 2, 'only_ops': ['getaddrinfo', 'socket', 'connect', 'sendall'], 'url': 'wss://example.com/x'})
         out.append({'name': 'connect-phase', 'server': ['eof', 'text'], 'handshake': ['hs-ok'], 'app': [], 'depth': 1, 'faults': 3, 'cuts': False,
                     'strict': False, 'max_dev': 3, 'only_ops': ['getaddrinfo', 'socket', 'connect', 'sendall']})
-        out.append({'name': 'pings', 'server': ['eof', 'ping', 'ping-ping', 'silence'], 'handshake': ['hs-ok'], 'app': [], 'depth': d + 1, 'faults': nf,
+        out.append({'name': 'pings', 'server': ['eof', 'ping', 'ping-ping', 'ping-text-close', 'silence'], 'handshake': ['hs-ok'], 'app': [], 'depth': d + 1, 'faults': nf,
                     'cuts': False, 'strict': False, 'max_dev': nf, 'connect': {'ping_rate': 5}, 'timers': 'absolute', 'drop': ()})
         out.append({'name': 'close-timeout', 'server': ['eof', 'text', 'close-1000', 'silence'], 'handshake': ['hs-ok'], 'app': ['close'],
                     'depth': 2, 'faults': 1, 'cuts': False, 'strict': False, 'max_dev': 2, 'connect': {'close_timeout': 10},
